@@ -103,7 +103,7 @@ func mapKeys[M ~map[K]V, K comparable, V any](m M) []K {
 		sort.Slice(rest, func(i, j int) bool { return fmt.Sprint(rest[i]) < fmt.Sprint(rest[j]) })
 		keys = append(keys, rest...)
 	}
-	if t != nil && t.x.opts.MapPerm && len(keys) > 1 && len(keys) <= 4 {
+	if t != nil && t.x.opts.MapPerm && len(keys) > 1 && len(keys) <= 5 {
 		f := 1
 		for i := 2; i <= len(keys); i++ {
 			f *= i
